@@ -358,7 +358,7 @@ func genCase(t *rapid.T) Case {
 	if gen.Pick(t, 3, "trap") == 0 {
 		c.Ctx.Traps = uint32(apd.InvalidOperation)
 	}
-	if arith.P0Op(c.Op) && gen.Pick(t, 6, "p0") == 0 {
+	if (arith.P0Op(c.Op) || c.Op == "quo" || c.Op == "quointeger") && gen.Pick(t, 6, "p0") == 0 {
 		c.Ctx.P = 0 // rounding disabled (as in BaseContext): the special-value rules still apply
 	}
 	k := rapid.IntRange(0, 1000).Draw(t, "k")
